@@ -1,6 +1,7 @@
 import RoaringModel.Driver.Core
 import RoaringModel.Ops
 import RoaringModel.Mirror32
+import RoaringModel.SafeBinOps
 /-! Driver handlers: family `Algebra` — binary set operations in every form (C02), relations and
     cardinality-only operations (C08).
 
@@ -43,6 +44,20 @@ def cellTags (l r d : Bitmap) : String :=
     let dk := match d.find? (fun c => c.key == key) with | some c => kindChar c.store | none => '-'
     String.ofList [lk, rk, '>', dk])
 
+/-- run-time evaluation of `Bitmap.Safe_andAR` / `Bitmap.Safe_subAR` (`SafeBinOps.lean`, C16) for the forms that the Rust
+    routes to the by-reference `&=` (ops.rs:259: `ar`, `or` = `a & &b`, `ro` = `&a & b` with the operands exchanged) and to
+    the by-reference `-=` (ops.rs:336: `ar`, `ao`, `oo`, `or`) -/
+def safeBinop (op : Bitmap.BinOp) (form : Bitmap.Form) (l r : Bitmap) : String :=
+  match op, form with
+  | .and, .ar => safeMark "and_ar" (decide (Bitmap.Safe_andAR l r))
+  | .and, .or_ => safeMark "and_ar" (decide (Bitmap.Safe_andAR l r))
+  | .and, .ro => safeMark "and_ar" (decide (Bitmap.Safe_andAR r l))
+  | .sub, .ar => safeMark "sub_ar" (decide (Bitmap.Safe_subAR l r))
+  | .sub, .ao => safeMark "sub_ar" (decide (Bitmap.Safe_subAR l r))
+  | .sub, .oo => safeMark "sub_ar" (decide (Bitmap.Safe_subAR l r))
+  | .sub, .or_ => safeMark "sub_ar" (decide (Bitmap.Safe_subAR l r))
+  | _, _ => ""
+
 def opsAlgebra : Handler := fun st toks =>
   let b? (t : String) := (parseSlot 'b' t).bind fun i => (st.getB i).map fun s => (i, s)
   match toks with
@@ -61,7 +76,7 @@ def opsAlgebra : Handler := fun st toks =>
     let st := match form with
       | .ao => st.setB li res | .ar => st.setB li res
       | _ => st
-    pure (st.setB di res, out ++ " | p=" ++ cellTags ls.m rs.m res.m)
+    pure (st.setB di res, out ++ safeBinop op form ls.m rs.m ++ " | p=" ++ cellTags ls.m rs.m res.m)
   | ["is_subset", l, r] => do
     let (_, x) ← b? l; let (_, y) ← b? r
     pure (st, specMark (showBool (Bitmap.isSubsetMirror x.m y.m)) (showBool (Spec.isSubset x.s y.s)))
